@@ -248,6 +248,10 @@ func (s *State) Eval(v ssa.Value) AVal {
 		case "fmt.Errorf", "errors.New":
 			return AVal{K: ANonNil}
 		}
+		// a module helper that only ever builds an error (return fmt.Errorf(…) / errors.New(…))
+		if callee := x.Call.StaticCallee(); callee != nil && alwaysNewError(callee, 2) {
+			return AVal{K: ANonNil}
+		}
 	case *ssa.ChangeType:
 		return s.Eval(x.X)
 	case *ssa.ChangeInterface:
@@ -985,4 +989,40 @@ func ConstIntOf(a AVal) (int64, bool) {
 		return 0, false
 	}
 	return constant.Int64Val(a.C)
+}
+
+// alwaysNewError reports whether fn is a module function with a single error
+// result all of whose returns are freshly constructed errors.
+func alwaysNewError(fn *ssa.Function, depth int) bool {
+	if fn == nil || fn.Blocks == nil || !InModule(fn) || depth == 0 {
+		return false
+	}
+	res := fn.Signature.Results()
+	if res.Len() != 1 || !IsErrorType(res.At(0).Type()) {
+		return false
+	}
+	rets := Returns(fn)
+	if len(rets) == 0 {
+		return false
+	}
+	for _, ret := range rets {
+		srcs := ResolveAll(RetVal(ret, 0))
+		if len(srcs) == 0 {
+			return false
+		}
+		for _, src := range srcs {
+			call, ok := src.(*ssa.Call)
+			if !ok {
+				return false
+			}
+			switch ShortCallee(&call.Call) {
+			case "fmt.Errorf", "errors.New":
+				continue
+			}
+			if !alwaysNewError(call.Call.StaticCallee(), depth-1) {
+				return false
+			}
+		}
+	}
+	return true
 }
